@@ -163,7 +163,7 @@ func (store *Store) buildTransactionQuery(p PITFilterWithVolumes, query *bun.Sel
 			ColumnExpr("distinct on(transactions.id) transactions.*").
 			Column("transactions_metadata.metadata").
 			Join(fmt.Sprintf(`left join lateral (%s) as transactions_metadata on true`, selectMetadata.String())).
-			ColumnExpr(fmt.Sprintf("case when reverted_at is not null and reverted_at > '%s' then null else reverted_at end", p.PIT.Format(ledger.DateFormat)))
+			ColumnExpr(fmt.Sprintf("case when reverted_at is not null and reverted_at > '%s' then null else reverted_at end as reverted_at", p.PIT.Format(ledger.DateFormat)))
 	} else {
 		query = query.Column("transactions.metadata", "transactions.*")
 	}
